@@ -127,20 +127,54 @@ def call_real(case, pts32):
         cent = full[:, :, 0, :]  # (1, n_inst, 2)
         out = cm.generate_multiconfmaps(cent, (H, W), num_instances=n_an, sigma=sigma, output_stride=s, is_centroids=True)
         return out, "centroid"
-    img = torch.zeros((1, 1, H, W))
+    # DataPipe variants: one pipe object is fed a *stream* [warm-up, example, warm-up] whose items differ in
+    # image size and keypoints (mixed-resolution videos), so state kept from an earlier item shows in a later one
+    H2, W2, w32 = warm_example(case, pts32)
+    wfull = torch.from_numpy(np.concatenate([w32, pad], axis=0)).unsqueeze(0)
+
+    def mk(hh, ww, tt, ff):
+        im = torch.zeros((1, 1, hh, ww))
+        if v == "dp_single":
+            return {"image": im, "instances": tt.clone().unsqueeze(0)}
+        if v == "dp_multi":
+            return {"image": im, "instances": ff.clone(), "num_instances": n_an}
+        return {"image": im, "centroids": ff[:, :, 0, :].clone(), "num_instances": n_an}
+
+    stream = [mk(H2, W2, torch.from_numpy(w32), wfull), mk(H, W, t, full), mk(H2, W2, torch.from_numpy(w32), wfull)]
     if v == "dp_single":
-        ex = {"image": img, "instances": t.clone().unsqueeze(0)}
-        res = list(cm.ConfidenceMapGenerator([ex], sigma=sigma, output_stride=s))
-        return res[0]["confidence_maps"], "single4d"
-    if v == "dp_multi":
-        ex = {"image": img, "instances": full, "num_instances": n_an}
-        res = list(cm.MultiConfidenceMapGenerator([ex], sigma=sigma, output_stride=s, centroids=False))
-        return res[0]["confidence_maps"], "multi"
-    if v == "dp_centroid":
-        ex = {"image": img, "centroids": full[:, :, 0, :], "num_instances": n_an}
-        res = list(cm.MultiConfidenceMapGenerator([ex], sigma=sigma, output_stride=s, centroids=True))
-        return res[0]["centroids_confidence_maps"], "centroid"
-    raise ValueError(v)
+        res = list(cm.ConfidenceMapGenerator(stream, sigma=sigma, output_stride=s))
+        key, kind = "confidence_maps", "single4d"
+    elif v == "dp_multi":
+        res = list(cm.MultiConfidenceMapGenerator(stream, sigma=sigma, output_stride=s, centroids=False))
+        key, kind = "confidence_maps", "multi"
+    elif v == "dp_centroid":
+        res = list(cm.MultiConfidenceMapGenerator(stream, sigma=sigma, output_stride=s, centroids=True))
+        key, kind = "centroids_confidence_maps", "centroid"
+    else:
+        raise ValueError(v)
+    case["_stream"] = [res[0][key], res[2][key]] if len(res) == 3 else None
+    case["_stream_len"] = len(res)
+    return res[1][key], kind
+
+
+def warm_example(case, pts32):
+    """A second example of another image size (same stride) with shifted keypoints."""
+    s = case["stride"]
+    i = abs(int(case.get("i") or 0))
+    H2 = s * (case["H"] // s + 1 + i % 3)
+    W2 = s * max(2, case["W"] // s - 1 - i % 2)
+    return H2, W2, (pts32 + np.float32(1.5 * s)).astype(np.float32)
+
+
+def expected(kind, p64, n_nodes, H, W, s, sigma):
+    gh, gw = H // s, W // s
+    if kind == "single":
+        return np.stack([ref.confmap_single(p, H, W, s, sigma) for p in p64]) if len(p64) else np.zeros((0, n_nodes, gh, gw))
+    if kind == "single4d":
+        return ref.confmap_single(p64.reshape(-1, 2), H, W, s, sigma)[None]
+    if kind == "multi":
+        return ref.confmap_multi(p64, H, W, s, sigma)[None]
+    return ref.confmap_multi(p64[:, :1], H, W, s, sigma)[None]
 
 
 def check(ctx, case):
@@ -154,17 +188,23 @@ def check(ctx, case):
     ctx.count("real_calls:" + case["variant"])
     got = out.detach().numpy().astype(np.float64)
     gh, gw = H // s, W // s
-    if kind == "single":
-        exp = np.stack([ref.confmap_single(p, H, W, s, sigma) for p in p64]) if n_an else np.zeros((0, n_nodes, gh, gw))
-    elif kind == "single4d":
-        exp = ref.confmap_single(p64.reshape(-1, 2), H, W, s, sigma)[None]
-    elif kind == "multi":
-        exp = ref.confmap_multi(p64, H, W, s, sigma)[None]
-    else:
-        exp = ref.confmap_multi(p64[:, :1], H, W, s, sigma)[None]
+    exp = expected(kind, p64, n_nodes, H, W, s, sigma)
     small = {k: case[k] for k in ("variant", "H", "W", "stride", "sigma", "n_pad", "n_nodes", "nan_class", "classes")}
     small["points"] = pts
     small["i"] = case.get("i")
+    if case["variant"].startswith("dp_"):  # the other items of the stream fed to the same pipe object
+        H2, W2, w32 = warm_example(case, pts32)
+        wexp = expected(kind, w32.astype(np.float64), n_nodes, H2, W2, s, sigma)
+        if case.get("_stream_len") != 3:
+            ctx.violation("stream-length", f"{case['variant']}: a stream of 3 examples yielded {case.get('_stream_len')}", small)
+        else:
+            for pos, o in zip((0, 2), case["_stream"]):
+                g = o.detach().numpy().astype(np.float64)
+                ctx.count("stream_items")
+                if g.shape != wexp.shape:
+                    ctx.violation("stream-shape", f"{case['variant']}: stream item {pos} ({H2}x{W2}) has shape {g.shape} != {wexp.shape}", small)
+                elif not np.all(np.isfinite(g)) or np.abs(g - wexp).max() > 1e-5 + 1e-4:
+                    ctx.violation("stream-value", f"{case['variant']}: stream item {pos} ({H2}x{W2}) differs from the reference by {np.nanmax(np.abs(g - wexp)):.3g}", small)
     if got.shape != exp.shape:
         ctx.violation("shape", f"{case['variant']}: shape {got.shape} != expected {exp.shape} (nodes,H/s,W/s)", small)
         ctx.tick()
@@ -213,6 +253,7 @@ def finalize(ctx):
         ambient.run_tests(ctx, "C01", ["tests/data/test_confmaps.py", "tests/data/test_get_data_chunks.py"], ["generate_confmaps", "generate_multiconfmaps"])
     for v in VARIANTS:
         ctx.require("real_calls:" + v, 1)
+    ctx.require("stream_items", 2)
 
 LEVEL_TEXT = ("Every call of the real confidence-map generators (functional and DataPipe, single/multi/centroid) on seeded hostile inputs is "
               "compared cell-by-cell with an independent float64 Gaussian-on-grid model; held = no disagreement on the cases observed. "
